@@ -1120,7 +1120,18 @@ def explog_normal(p):
                 rest.append((g, e))
         term = Poly({tuple(rest): c})
         if tot.t:
-            term = term * _fun_gen("Exp", tot)
+            lone = None
+            if len(tot.t) == 1:
+                (mm, q), = tot.t.items()
+                if len(mm) == 1 and mm[0][1] == 1 and mm[0][0] > 0:
+                    inf = G.info[mm[0][0]]
+                    if inf["kind"] == "fun" and inf["fname"] == "Log" and inf["arg"].is_const():
+                        lone = (inf["arg"], q)
+            if lone is not None:
+                # Exp(q Log c) for a positive constant c and a rational q is the constant c**q
+                term = term * power(lone[0], lone[1])
+            else:
+                term = term * _fun_gen("Exp", tot)
         out = out + term
     return out
 
